@@ -200,7 +200,7 @@ func getFloatToFormattedStringFunction() schema.CallableFunction {
 			nil,
 			nil,
 			regexp.MustCompile(`^-?(?:0[xX])?\d+(?:\.\d*)?(?:[pPeE][-+]\d{2,3})?$`)),
-		false,
+		true,
 		schema.NewDisplayValue(
 			schema.PointerTo("floatToFormattedString"),
 			schema.PointerTo(
@@ -214,8 +214,11 @@ func getFloatToFormattedStringFunction() schema.CallableFunction {
 			),
 			nil,
 		),
-		func(f float64, fmt string, precision int64) string {
-			return strconv.FormatFloat(f, fmt[0], int(precision), 64)
+		func(f float64, format string, precision int64) (string, error) {
+			if len(format) != 1 {
+				return "", fmt.Errorf("invalid format specifier '%s': expected a single character", format)
+			}
+			return strconv.FormatFloat(f, format[0], int(precision), 64), nil
 		},
 	)
 	if err != nil {
